@@ -25,7 +25,7 @@ from vf.core import h64
 
 PROP = "C20"
 SHARDS = {"quick": 8, "thorough": 16}
-TIME_CAP = {"quick": 48, "thorough": 720}
+TIME_CAP = {"quick": 42, "thorough": 720}
 RECURSION_LIMIT = 800
 REQUIRED = ["threads_started", "concurrent_calls", "overlap_first_use_calls", "overlap_in_analysis", "monitored_cache_writes",
             "hook_events", "schedules_executed", "schedules_parked", "injected_yields", "quiescence_truth_checks",
@@ -34,7 +34,10 @@ RULE = ("fresh clusters of 17 fixed shapes (plain, generic, generic-recursive, s
         "recursion, registered / lazily registered / recursive / field-level / LazyConversion conversions, class validators) + seeded random reference digraphs; "
         "a case = one concurrent public call (workload, shape, op, entry, datum, threads | schedule (k, j)) compared with its sequential twin; "
         "non-trivial = the cluster was used by >= 2 threads; distinct by hash.  Distinct cache-write orders and schedules are counted separately.")
-ASSUMPTIONS = ["'every interleaving' is restated as: the interleavings executed (random preemption at 1 us, every single park point k of thread A x "
+ASSUMPTIONS = ["shapes are restricted to reference graphs whose cycles do not overlap (every non-trivial SCC is one simple cycle; 'nested' is the "
+               "one audited exception): on graphs with overlapping cycles apischema's *sequential* recursion analysis already depends on "
+               "the order of first uses (separate finding, see docs/reports/C20.md), so 'what a sequential execution returns' is not one value",
+               "'every interleaving' is restated as: the interleavings executed (random preemption at 1 us, every single park point k of thread A x "
                "{B to completion, B to its j-th hook}, seeded random yields); evidence lists how many",
                "the sequential semantics of a call is given by a structurally identical twin cluster used by one thread (order-independence of the "
                "sequential result is itself checked on a sample; disagreement => abstention 'twin_order_dependent')",
@@ -43,6 +46,8 @@ ASSUMPTIONS = ["'every interleaving' is restated as: the interleavings executed 
                "a wrong recursion-dictionary entry that the eviction follow-up cannot turn into a different result is reported as 'suspect' only"]
 
 OPS = ["deserialize", "serialize", "dschema", "sschema"]
+# fixed shapes with overlapping cycles that were checked offline over every analysis root x 60 random root orders
+OVERLAPPING_OK = {"nested"}
 _seq = [0]
 
 
@@ -219,16 +224,28 @@ def order_safe(state, ext):
     n = len(ext["entries"])
     ref = None
     perms = list(itertools.permutations(range(n))) if n <= 4 else [tuple(range(n)), tuple(reversed(range(n)))] + [tuple(range(i, n)) + tuple(range(i)) for i in range(1, n)]
-    for perm in perms:
+    from apischema.json_schema import deserialization_schema, serialization_schema
+
+    # every order of the entry points (compilation first), then every rotation with schema generation first: schema
+    # generation serializes field defaults, i.e. it starts analyses from field types rather than from the entry points
+    variants = [(perm, False) for perm in perms] + [(tuple(range(i, n)) + tuple(range(i)), True) for i in range(n)]
+    for perm, schema_first in variants:
         state.mon.clear()
         cl = S.Cluster(ext, _sfx())
         try:
+            if schema_first and not ext.get("no_schema"):
+                for e in perm:
+                    for f in (deserialization_schema, serialization_schema):
+                        try:
+                            f(cl.types[e])
+                        except Exception:
+                            pass
             for e in perm:
                 for f in (apischema.deserialization_method, apischema.serialization_method):
                     try:
                         f(cl.types[e])
                     except (RecursionError, AssertionError) as ex:
-                        return False, f"{type(ex).__name__} for entry order {perm}"
+                        return False, f"{type(ex).__name__} for entry order {perm}{' after schema generation' if schema_first else ''}"
                     except Exception:
                         pass
             cur = {d: norm_entries(state.mon, d, cl.sfx) for d in ("deser", "ser")}
@@ -278,15 +295,23 @@ class State:
             ext = S.extend(shape)
             sig = S.shape_sig(shape)
             if sig not in self.safe:
-                self.safe[sig] = order_safe(self, shape)
-                self.env.count("order_safety_checks")
+                if not (S.simple_cycles_only(shape) or shape["name"] in OVERLAPPING_OK):
+                    # by construction: with overlapping cycles the sequential analysis itself depends on the order of first uses
+                    self.safe[sig] = (False, "overlapping reference cycles (sequential result is order dependent by construction)")
+                elif shape["name"].startswith("rand"):
+                    # generated without overlapping cycles (criterion validated offline by brute force over analysis roots);
+                    # the twin is additionally built twice, in opposite call orders
+                    self.safe[sig] = (True, None)
+                else:
+                    self.safe[sig] = order_safe(self, shape)
+                    self.env.count("order_safety_checks")
                 if not self.safe[sig][0]:
                     self.env.count("abstain:shape_sequentially_order_dependent")
                     note = f"sequential recursion analysis is order dependent / unsound on shape {shape['name']}: {self.safe[sig][1]}"
                     if len(self.env.notes) < 6:
                         self.env.notes.append(note[:300])
             data = S.make_data(ext, random.Random(h64("data", S.shape_sig(shape), data_seed)))
-            check = len(self.twins) % 5 == 0
+            check = len(self.twins) % 5 == 0 or shape["name"].startswith("rand")
             tw = Twin(ext, data, self, order_check=check) if self.safe[sig][0] else Twin.__new__(Twin)
             if not self.safe[sig][0]:
                 tw.order_dependent, tw.seq_exception, tw.table, tw.cache = True, None, {}, {}
@@ -566,7 +591,7 @@ def stress(state, workload, n_clusters, yield_p, until):
     done = 0
     bi = 0
     while done < n_clusters and not state.hang:
-        if time.time() > until:
+        if time.time() > until and bi >= 2:  # at least two batches whatever the load: a phase that never ran is inconclusive
             env.count(workload + "_clusters_skipped_time_cap", n_clusters - done)
             break
         nthreads = [2, 4, 8, 16][bi % 4] if not env.quick() or bi % 8 != 7 else 2
@@ -799,7 +824,7 @@ def systematic(state, budget, until):
     prng.shuffle(mixed)
     mine += mixed[state.rank :: state.members]
     for n, (case, k, j) in enumerate(mine):
-        if time.time() > until or state.hang:
+        if (time.time() > until and n >= 12) or state.hang:
             env.count("schedules_skipped_time_cap", len(mine) - n)
             break
         tw = state.twin(state.shapes[case[0]], 0)
